@@ -18,7 +18,12 @@ def main():
     sys.exit(run.do_replay(a.replay))
   seed = int(os.environ.get('VERIF_SEED', '0') or 0)
   if a.only: os.environ['VERIF_ONLY'] = a.only
-  sys.exit(run.run_property(a.prop, a.tier, seed=seed, budget_s=a.budget, jobs=a.jobs, only=a.only.split(',') if a.only else None))
+  rc = run.run_property(a.prop, a.tier, seed=seed, budget_s=a.budget, jobs=a.jobs, only=a.only.split(',') if a.only else None)
+  if a.prop == 'SELFTEST' and not a.only:
+    from . import selftest
+    rc = max(rc, selftest.main())
+    if rc: print("ENGINE-ERROR translator validation failed")
+  sys.exit(rc)
 
 
 if __name__ == '__main__':
